@@ -53,6 +53,9 @@ var Shapes = map[string][]string{
 	// two coins that each exceed small requests, and no small coins: a second draft has to
 	// move on to the other big coin
 	"two-big": {"x.pv.300000000.0", "d", "x.pv.500000000.1", "d"},
+	// more coins than the input cap in three value classes, created in an order that puts a
+	// large coin first and medium ones after hundreds of tiny ones: the K largest must be found
+	"top-k-mixed": {"x.pv.900000000.0", "d", "x.pm.330.10000", "d", "x.pm.5.60000000", "d", "x.pm.340.10000", "d", "x.pm.5.60000000", "d", "x.pv.50000000.0", "d"},
 }
 
 type Opts struct{}
@@ -250,7 +253,7 @@ func (r *run) auto() {
 		foreign = B.Addrs[0].Std
 	}
 	_, totalAll := r.coins("")
-	amounts := []int64{500, 30000, 50000000, totalAll / 2, totalAll - 200000, totalAll, totalAll + 1, 10*totalAll + 100000000}
+	amounts := []int64{500, 30000, 50000000, totalAll / 2, totalAll / 3 * 2, totalAll / 6 * 5, totalAll - 200000, totalAll, totalAll + 1, 10*totalAll + 100000000}
 	fees := []int64{0, massutil.MinRelayTxFee().IntValue(), 10 * massutil.MinRelayTxFee().IntValue()}
 	froms := []string{"", A.Addrs[0].Std, A.Addrs[1].Std, foreign}
 	changes := []string{"", A.Addrs[1].Std, S}
@@ -299,6 +302,23 @@ func (r *run) auto() {
 									// clear case: eligible funds suffice even for the largest conceivable fee (+ dust margin)
 									if elig >= outSum+maxFee+100000 && a1 > 30000 && len(r.eligibleList(from)) < 100 {
 										r.bad("%s failed (%v) although eligible funds %d cover outputs %d plus any fee", what, err, elig, outSum)
+									}
+									// many coins: the standard-size input cap applies - the K largest eligible
+									// coins are what counts (K taken 10 below the cap, which only weakens the demand)
+									if el := r.eligibleList(from); len(el) >= 100 && a1 > 30000 {
+										vals := make([]int64, 0, len(el))
+										for _, c := range el {
+											vals = append(vals, c.Value)
+										}
+										sort.Slice(vals, func(i, j int) bool { return vals[i] > vals[j] })
+										k := blockchain.GetMaxStandardTxSize()/154 - 10
+										var top int64
+										for i := 0; i < len(vals) && i < k; i++ {
+											top += vals[i]
+										}
+										if top >= outSum+maxFee+100000 {
+											r.bad("%s failed (%v) although the %d largest eligible coins (%d) cover outputs %d plus any fee", what, err, k, top, outSum)
+										}
 									}
 									if elig < outSum+uf && err != masswallet.ErrInsufficientFunds && a1 > 30000 && !strings.Contains(err.Error(), "nsufficient") {
 										r.outc["auto-other-error-when-insufficient:"+err.Error()]++
@@ -441,12 +461,20 @@ func (r *run) manual() {
 		// clause (ownership, value conservation, change, fee) must hold
 		sets = append(sets, inset{"already spent coin (open: may be refused)", []*world.Coin{spent}, false})
 	}
+	if len(own) > 0 {
+		// the same output named twice with two spellings of its id (hex digits are case-insensitive)
+		sets = append(sets, inset{"same coin twice, id in lower and upper case", []*world.Coin{own[0], own[0]}, true})
+	}
 	for _, st := range sets {
 		var sum int64
 		var ins []*masswallet.TxIn
-		for _, c := range st.ins {
+		for k, c := range st.ins {
 			sum += c.Value
-			ins = append(ins, &masswallet.TxIn{TxId: c.OP.Hash.String(), Vout: c.OP.Index})
+			id := c.OP.Hash.String()
+			if k == 1 && strings.Contains(st.name, "upper case") {
+				id = strings.ToUpper(id)
+			}
+			ins = append(ins, &masswallet.TxIn{TxId: id, Vout: c.OP.Index})
 		}
 		for _, a1 := range []int64{sum / 2, sum - 100000, sum, 2 * sum} {
 			if a1 <= 1000 {
